@@ -397,7 +397,10 @@ def lookN {β} (t : List (Num × β)) (miss : β) (k : Num) : β :=
 
 def missFloat : PyFloat := .fin false 0 0 missStr
 
-def stdOf (j : Json) : D Std := do
+def stdOfV (variant : Bool) (j : Json) : D Std := do
+  let missStr : S := if variant then "<<STDMISS2>>".toList else missStr
+  let missInt : Int := if variant then 271828182845904523536028747135266249 else missInt
+  let missFloat : PyFloat := if variant then .fin false 7 9 missStr else .fin true 3 (-1) missStr
   let fos ← tableS j "float_of_str" (optDec (fun x => match isFloatObj x with | some v => floatOf v | none => throw "float"))
   let foi ← tableN j "float_of_int" (optDec (fun x => match isFloatObj x with | some v => floatOf v | none => throw "float"))
   let dec ← tableS j "decimal" (optDec strOf)
@@ -439,9 +442,13 @@ def stdOf (j : Json) : D Std := do
     timeparse := lookS tp (some (.int missInt))
     tdOfSeconds := lookN td (some missInt)
     b64encode := fun b => match b64e.find? (fun p => p.1 == b) with | some p => p.2 | none => missStr
-    b64decode := lookS b64d (some [])
+    b64decode := lookS b64d (some (if variant then [1] else []))
     datetimeTimestamp := lookS dtt (some missInt)
     dateTimestamp := lookS dat (some missInt)
   }
 
+end DW.Driver
+
+namespace DW.Driver
+def stdOf (j : Lean.Json) : D Std := stdOfV false j
 end DW.Driver
